@@ -6,6 +6,7 @@ clock and every operation list of any length.
 -/
 import LA.Proofs.Reasm
 import LA.Proofs.StateFacts
+import LA.Gen.ReasmFacts
 
 namespace LA.Reasm
 
@@ -167,3 +168,15 @@ end LA.Reasm
 /-- Outside `init`, no function of the root package writes a package-level variable, hands the address of one to a function or calls a
 sync/atomic method on one (regenerated list, see LA.Proofs.StateFacts): all state is in the object the model is given. -/
 theorem C01_state_is_in_the_object : LA.StateFacts.ofPkg "" = [] := by decide
+
+/-- The model's message is the record as the Reassembler sees it — an identity, a sequence number and a record type —
+and that is all the code looks at: in reassembler.go the only fields of `auparse.AuditMessage` selected are `RecordType`
+and `Sequence`, and the only function outside the root package that is handed messages is the Stream's
+`ReassemblyComplete` (`msgReads`, regenerated with go/types on every run). Grouping, order, completion, eviction and
+loss accounting are therefore functions of (sequence, type) histories and of the clock, as in `Model.Reasm`; a
+Reassembler that also consults a record's time stamp, text or parsed data — to guess at a restart of the kernel's
+counter, to tell two events with one number apart — is outside that reading whatever it uses them for, and the
+drivers' histories (which vary time stamps and bodies independently of the sequence numbers) search for the input on
+which it shows. -/
+theorem C01_reads_only_sequence_and_type :
+    LA.Gen.ReasmFacts.msgReads = ["call:ReassemblyComplete", "field:RecordType", "field:Sequence"] := by decide
